@@ -252,6 +252,94 @@ theorem error_sticky_until_reset (cfg : Cfg) (es : List Ev) (s : St)
     | switches o c => simpa [step] using h
     | advance d => simpa [step] using h
 
+/-! ### several valves in one slow sync group: every valve behaves as if it were alone -/
+
+theorem getElem?_modifyAt (f : Member → Member) (g : List Member) (j i : Nat) :
+    (modifyAt f g j)[i]? = if j = i then g[i]?.map f else g[i]? := by
+  induction g generalizing j i with
+  | nil => cases j <;> simp [modifyAt]
+  | cons u r ih =>
+    cases j with
+    | zero => cases i <;> simp [modifyAt]
+    | succ j =>
+      cases i with
+      | zero => simp [modifyAt]
+      | succ i => simpa [modifyAt] using ih j i
+
+/-- one group event changes valve `i` exactly as the events it sees of it change a valve that is alone -/
+theorem gstep_member (g : List Member) (e : GEv) (i : Nat) :
+    (gstep g e)[i]? = g[i]?.map fun u => { u with st := run u.cfg u.st (proj i e) } := by
+  cases e with
+  | reset j => by_cases h : j = i <;> simp [gstep, proj, getElem?_modifyAt, h, run] <;> rfl
+  | update j => by_cases h : j = i <;> simp [gstep, proj, getElem?_modifyAt, h, run] <;> rfl
+  | cycle => simp [gstep, proj, run]; rfl
+  | setTarget j v => by_cases h : j = i <;> simp [gstep, proj, getElem?_modifyAt, h, run] <;> rfl
+  | switches j o c => by_cases h : j = i <;> simp [gstep, proj, getElem?_modifyAt, h, run] <;> rfl
+  | advance d => simp [gstep, proj, run]; rfl
+
+/-- **independence of the valves of one group**: after any group history, valve `i` has its own configuration and
+is in the state a single valve reaches on the events addressed to it (plus cycles and the clock) — targets,
+switch readings, resets and time-outs of the other valves do not exist for it -/
+theorem group_independent (g : List Member) (evs : List GEv) (i : Nat) :
+    (grun g evs)[i]? = g[i]?.map fun u => { u with st := run u.cfg u.st (projAll i evs) } := by
+  induction evs generalizing g with
+  | nil =>
+    simp only [grun, projAll, run]
+    cases g[i]? <;> rfl
+  | cons e es ih =>
+    rw [grun, ih, gstep_member]
+    cases h : g[i]? <;> simp [projAll, run_append]
+
+/-- an event that valve `i` does not see leaves it exactly as it was -/
+theorem group_others_untouched (g : List Member) (e : GEv) (i : Nat) (h : proj i e = []) :
+    (gstep g e)[i]? = g[i]? := by
+  rw [gstep_member, h]
+  cases g[i]? <;> simp [run]
+
+theorem group_length (g : List Member) (evs : List GEv) : (grun g evs).length = g.length := by
+  have hm : ∀ (f : Member → Member) (g : List Member) (j : Nat), (modifyAt f g j).length = g.length := by
+    intro f g
+    induction g with
+    | nil => intro j; cases j <;> rfl
+    | cons u r ih => intro j; cases j <;> simp [modifyAt, ih]
+  induction evs generalizing g with
+  | nil => rfl
+  | cons e es ih => rw [grun, ih]; cases e <;> simp [gstep, hm]
+
+theorem projAll_append (i : Nat) (a b : List GEv) : projAll i (a ++ b) = projAll i a ++ projAll i b := by
+  induction a with
+  | nil => rfl
+  | cons e a ih => simp [projAll, ih]
+
+/-- **C27 for every valve of a group**: valve `i` (default safe state) of any group, after `reset` and any group
+history, at the next cycle of the group: its coil follows ITS OWN target while its switches confirm the position
+its coil commands or its moving time has not elapsed since they last did; otherwise it flags ITS error and its
+coil and target go to ITS safe state — whatever the other valves of the group are asked, read or do. -/
+theorem group_valve_property (g : List Member) (i : Nat) (u : Member) (hu : g[i]? = some u)
+    (hsafe : u.cfg.safeState = false) (pre : List GEv) :
+    let p := projAll i pre
+    let lc := lastConfirmBy confirms u.cfg (reset u.st) u.st.now p
+    ∃ s s', (grun g (.reset i :: pre))[i]? = some ⟨u.cfg, s⟩ ∧
+      (grun g (.reset i :: pre ++ [.cycle]))[i]? = some ⟨u.cfg, s'⟩ ∧
+      ((confirms s = true ∨ s.now - lc < u.cfg.movingTime) → Follows s s') ∧
+      (confirms s = false → u.cfg.movingTime ≤ s.now - lc → WentSafe u.cfg s') := by
+  intro p lc
+  refine ⟨run u.cfg u.st (.reset :: p), run u.cfg u.st (.reset :: p ++ [.update]), ?_, ?_, ?_, ?_⟩
+  · rw [group_independent, hu]; simp [projAll, proj, p]
+  · rw [group_independent, hu]
+    have : projAll i (GEv.reset i :: pre ++ [GEv.cycle]) = .reset :: p ++ [.update] := by
+      simp [projAll, proj, projAll_append, p]
+    rw [this]; rfl
+  · exact coil_follows_target u.cfg hsafe u.st p
+  · exact timeout_goes_safe u.cfg hsafe u.st p
+
+/-- the error reaction for either safe state, in a group: at a cycle every valve either follows its own target or
+goes to its own safe state with its own error flag -/
+theorem group_update_dichotomy (g : List Member) (i : Nat) (u : Member) (hu : g[i]? = some u) :
+    ∃ u', (gstep g .cycle)[i]? = some u' ∧ u'.cfg = u.cfg ∧ (Follows u.st u'.st ∨ WentSafe u.cfg u'.st) := by
+  refine ⟨{ u with st := update u.cfg u.st }, ?_, rfl, update_dichotomy u.cfg u.st⟩
+  rw [gstep_member, hu]; simp [proj, run, step]
+
 /-! ### non-vacuity: concrete histories in both regimes -/
 
 /-- default configuration from /repo: closed is safe, 5 s at 1024 ticks/s -/
@@ -282,6 +370,14 @@ example :
     (run { safeState := true, movingTime := 10 } sStart [.reset, .advance 10, .update]).coil = true ∧
     (run { safeState := true, movingTime := 10 } sStart [.reset, .advance 10, .update]).target = 1 ∧
     (run { safeState := true, movingTime := 10 } sStart [.reset, .advance 10, .update]).error = true := by
+  decide
+
+-- two valves in one group (closed-safe with 10 ticks, open-safe with 1000 ticks): valve 0 is asked to open and never
+-- arrives -> it alone flags the error and closes; valve 1 is asked to open and keeps its coil on, target and error its own
+example :
+    let g0 : List Member := [⟨{ safeState := false, movingTime := 10 }, sStart⟩, ⟨{ safeState := true, movingTime := 1000 }, sStart⟩]
+    let g := grun g0 [.reset 0, .reset 1, .setTarget 0 1, .setTarget 1 1, .cycle, .switches 0 0 0, .advance 10, .cycle]
+    (g.map fun u => (u.st.coil, u.st.target, u.st.error)) = [(false, 0, true), (true, 1, false)] := by
   decide
 
 end Ebv.C27
